@@ -222,6 +222,8 @@ impl Lease for TtlLease {
         self.has_keys.store(true, Ordering::Relaxed);
 
         // Calculate absolute expiration time
+        // Clamp: `SystemTime + Duration` panics on overflow, and ttl_secs comes from the client.
+        let ttl_secs = ttl_secs.min(MAX_TTL_SECS);
         let expire_at = SystemTime::now() + Duration::from_secs(ttl_secs);
         #[cfg(d_engine_verif)]
         let expire_at = verif_clock::now() + Duration::from_secs(ttl_secs);
@@ -404,6 +406,10 @@ impl Lease for TtlLease {
         Ok(())
     }
 }
+
+/// Largest TTL honoured (1000 years). Larger client-supplied values are clamped to it so that
+/// `now + ttl` can never overflow `SystemTime` (which would panic inside `apply_chunk`).
+pub(crate) const MAX_TTL_SECS: u64 = 1000 * 365 * 24 * 3600;
 
 /// Snapshot-serializable lease state.
 #[derive(Debug, Serialize, Deserialize)]
